@@ -61,3 +61,19 @@ Example C04_code_model_nonvacuous :
   Some (dtw_value ex4_u [[0]; [3]; [1]; [2]]%Z [[0]; [1]; [1]]%Z, wps_matrix ex4_u [[0]; [3]; [1]; [2]]%Z [[0]; [1]; [1]]%Z)
   /\ dtw_value ex4_u [[0]; [3]; [1]; [2]]%Z [[0]; [1]; [1]]%Z <> Inf.
 Proof. vm_compute. split; [reflexivity|discriminate]. Qed.
+
+(* ---- the C engine's matrix: the fill loops write column ci of row ri to the layout slot ci + 1 - shift(ri) and the
+   expand loops read that same slot and write it to row ri + 1 - rb, column ci + 1 - cb of the output (tables of both
+   loop families regenerated from dd_dtw.c): what dtw_expand_wps[_slice] returns at a cell is what the fill kernel
+   stored for that cell.  (That the stored VALUE is the recurrence's is the correspondence leg; the compact content is
+   also judged directly through the layout.) *)
+From DV Require Import CWps CFill CExpand.
+From DVGen Require Import Gen_cfill Gen_cexpand.
+
+Theorem C04_c_fill_and_expand_agree_on_the_slot : forall l1 l2 window0 rb re cb ce,
+  (1 <= l1)%Z -> (1 <= l2)%Z -> (0 <= window0)%Z -> (0 <= rb < re)%Z -> (re <= l1 + 1)%Z -> (0 <= cb < ce)%Z -> (ce <= l2 + 1)%Z ->
+  (forall r, In r fill_regions -> region_ok l1 l2 window0 r) /\
+  (forall r, In r expand_regions -> expand_ok l1 l2 window0 rb re cb ce r).
+Proof.
+  intros. split; [apply fill_regions_follow_the_layout; assumption|apply expand_regions_follow_the_layout; assumption].
+Qed.
